@@ -82,6 +82,8 @@ class pre_run(Contract):
 
 @register
 class pre_run_never_added(Contract):
+    bounded_driver = {"driver": "c15_gating", "inputs": {}}
+    witness = _witness
     """an algorithm that was never added to a setup has no data / fs attribute at all: still an exception"""
     qualname = "pyoma2.algorithms.base.BaseAlgorithm._pre_run"
     name = "never added to a setup"
@@ -278,6 +280,8 @@ class run_all(Contract):
 
 
 class _SetupMpe(Contract):
+    bounded_driver = {"driver": "c15_gating", "inputs": {}}
+    witness = _witness
     qualname = "pyoma2.setup.base.BaseSetup.mpe"
     props = ("C15",)
     generic_replay = False
